@@ -822,7 +822,12 @@ def code_objects_of(*objs):
         elif type(o).__name__ == "SingletonDecorator":
             visit(o.klass, modname)
         else:
-            w = getattr(o, "__wrapped__", None)      # e.g. a functools.lru_cache wrapper around a factory function
+            # e.g. a functools.lru_cache wrapper around a factory function.  Looked up statically: a plain getattr would
+            # run the object's own __getattr__ (the signal registry registers any unknown name it is asked for)
+            try:
+                w = vars(o).get("__wrapped__")
+            except TypeError:
+                w = None
             if isinstance(w, types.FunctionType):
                 visit(w, modname)
 
